@@ -16,17 +16,23 @@ for id in $ids; do
 import json,sys
 id=sys.argv[1]
 ref=None; bad=False
+sigs={}
 for sv in ("z3-new","z3","cvc5"):
     try: d=json.load(open(f"/tmp/sdiff_{id}.{sv}.json"))
     except Exception as e:
         print(f"  {id} {sv}: no evidence ({e})"); bad=True; continue
-    sig={h["harness"]:(h.get("status"),h.get("obligations"),h.get("discharged"),tuple(h.get("covers_reached") or []),h.get("violations")) for h in d["coverage"]["harnesses"]}
-    if ref is None: ref=(sv,sig)
-    elif sig!=ref[1]:
-        bad=True
-        for k in sig:
-            if sig[k]!=ref[1].get(k): print(f"  {id} {k}: {ref[0]}={ref[1].get(k)} {sv}={sig[k]}")
-print(f"  {id}: back ends "+("DISAGREE" if bad else "agree"))
+    sigs[sv]={h["harness"]:(h.get("status"),h.get("violations"),tuple(h.get("covers_reached") or [])) for h in d["coverage"]["harnesses"]}
+hs=sorted({h for s in sigs.values() for h in s})
+for h in hs:
+    verdicts={sv:sigs[sv].get(h) for sv in sigs}
+    decided={sv:v for sv,v in verdicts.items() if v and v[0] in ("ok","violated")}
+    undecided=[sv for sv,v in verdicts.items() if not v or v[0] not in ("ok","violated")]
+    if len({(v[0],v[1]) for v in decided.values()})>1:
+        bad=True; print(f"  {id} {h}: VERDICTS DIFFER {decided}")
+    elif len({v[2] for v in decided.values()})>1:
+        bad=True; print(f"  {id} {h}: cover sets differ {decided}")
+    if undecided: print(f"  {id} {h}: no verdict from {undecided} (timeout/unknown: reduced bound, not a disagreement)")
+print(f"  {id}: back ends "+("DISAGREE" if bad else "agree where they decide"))
 sys.exit(1 if bad else 0)
 PY
 done
